@@ -595,6 +595,50 @@ pub fn check_c05(cx: &C05Ctx, out: &mut Outcome) {
     for &e in cx.h2_sides {
         let i = crate::tapx::side_idx(e);
         let p = 1 - i;
+        // ---- send side, server: pushed streams count against the client's limit from their response HEADERS (reserved
+        // streams do not count, RFC 9113 §5.1.2) until the server ends or either side resets them
+        if e == Side::Server {
+            let mut started: Vec<u32> = Vec::new();
+            let mut ended: std::collections::HashSet<u32> = std::collections::HashSet::new();
+            for (pos, f) in cx.tap.frames.iter().enumerate() {
+                if f.from != e {
+                    continue;
+                }
+                match &f.frame {
+                    Ok(Frame::Headers { stream, end_stream, .. }) if stream % 2 == 0 && *stream != 0 => {
+                        if !started.contains(stream) {
+                            if let Some(limit) = cx.av.at[pos].2 {
+                                let open: Vec<u32> = started
+                                    .iter()
+                                    .copied()
+                                    .filter(|s2| !ended.contains(s2))
+                                    .filter(|s2| !ws.get(s2).map(|w2| w2.rst[p].iter().any(|r| r.1.map(|t| t <= f.t_w0).unwrap_or(false))).unwrap_or(false))
+                                    .collect();
+                                if open.len() >= limit as usize {
+                                    out.fail(
+                                        "C05",
+                                        "concurrency/send",
+                                        "C05/opens-pushed-stream-over-peer-limit",
+                                        format!("server starts the pushed response on stream {} while {} earlier pushed streams {:?} are still open on the wire; the client's acknowledged SETTINGS_MAX_CONCURRENT_STREAMS is {}", stream, open.len(), &open[..open.len().min(8)], limit),
+                                    );
+                                }
+                            }
+                            started.push(*stream);
+                        }
+                        if *end_stream {
+                            ended.insert(*stream);
+                        }
+                    }
+                    Ok(Frame::Data { stream, end_stream: true, .. }) => {
+                        ended.insert(*stream);
+                    }
+                    Ok(Frame::Rst { stream, .. }) => {
+                        ended.insert(*stream);
+                    }
+                    _ => {}
+                }
+            }
+        }
         // ---- send side: E's own streams open on the wire vs the limit E has acknowledged
         if e == Side::Client {
             for (pos, f) in cx.tap.frames.iter().enumerate() {
